@@ -821,7 +821,7 @@ theorem renderBlk_step (env : Env) (fuel : Nat) (ih : IH env fuel) (b : Blk) (st
       · rename_i _ xs hne heq
         -- sequence-variables frame (and the cache of a named sequence) pushed, popped on every path
         generalize hfs : (Frame.seq { items := xs, mapping := o.mapping, prefix_ := o.prefix_ } ::
-            (match src with | .name n => [Frame.dict [(n, v)]] | .expr _ => [])) = fs
+            (match src with | .name n => [Frame.dict [(n, seqCacheVal v)]] | .expr _ => [])) = fs
         have hl := ih.inLoop { items := xs, mapping := o.mapping, prefix_ := o.prefix_ } o body 0
             { st' with stack := fs ++ st'.stack }
         generalize inLoop env fuel { items := xs, mapping := o.mapping, prefix_ := o.prefix_ } o body 0
